@@ -697,6 +697,10 @@ func crashLeg(t *testing.T, env vt.Env) ([]byte, *vt.Fail) {
 			c.Step.Cred.User = "alice"
 		}
 		c.Step.Cred.Pass = trunc(c.Step.Cred.Pass)
+		if rapid.IntRange(0, 2).Draw(t, "legacyKey") == 1 {
+			// the operation addresses a key of another form of one of the hosts
+			c.Step.Key, c.Step.Addr = rapid.SampledFrom([]string{"https://legacy.io/v1/", "http://legacy.io"}).Draw(t, "crashKey"), 2
+		}
 		if c.Step.Op == "put" && rapid.IntRange(0, 3).Draw(t, "noDir") == 0 {
 			c.NoDir = true
 			c.Doc = Doc{Absent: true}
@@ -708,7 +712,11 @@ func crashLeg(t *testing.T, env vt.Env) ([]byte, *vt.Fail) {
 		if c.Step.Op == "delete" {
 			// make sure there is something to delete
 			c.Doc.Absent, c.Doc.NoAuths = false, false
-			c.Doc.Entries = append(c.Doc.Entries, Entry{Key: addrs[c.Step.Addr], Form: "auth", Cred: Cred{User: "u", Pass: "p"}})
+			dk := addrs[c.Step.Addr]
+			if c.Step.Key != "" {
+				dk = c.Step.Key
+			}
+			c.Doc.Entries = append(c.Doc.Entries, Entry{Key: dk, Form: "auth", Cred: Cred{User: "u", Pass: "p"}})
 			seen := map[string]bool{}
 			var es []Entry
 			for j := len(c.Doc.Entries) - 1; j >= 0; j-- {
@@ -759,8 +767,13 @@ func runCrash(c CrashCase, child string) (res vt.Result, fail *vt.Fail) {
 		}
 		os.Remove(filepath.Join(root, "MARK"))
 	}
-	op := crash.Op{Op: c.Step.Op, Ref: addrs[c.Step.Addr], User: c.Step.Cred.User, Pass: c.Step.Cred.Pass, Refresh: c.Step.Cred.Refresh, Access: c.Step.Cred.Access}
+	opRef := addrs[c.Step.Addr]
+	if c.Step.Key != "" {
+		opRef = c.Step.Key
+	}
+	op := crash.Op{Op: c.Step.Op, Ref: opRef, User: c.Step.Cred.User, Pass: c.Step.Cred.Pass, Refresh: c.Step.Cred.Refresh, Access: c.Step.Cred.Access}
 	sc := &crash.Script{Kind: "cred", Dir: path, Marker: filepath.Join(root, "MARK"), Op: op}
+	sc.Probe = append(append([]string{opRef}, addrs...), otherKeys...)
 	r := &crash.Runner{Child: child, Work: root}
 	restore()
 	pts, err := r.Baseline(sc)
@@ -861,6 +874,10 @@ func runCrash(c CrashCase, child string) (res vt.Result, fail *vt.Fail) {
 		if err != nil {
 			// the runtime itself may abort on a failed call it depends on: not judged
 			continue
+		}
+		if exit == 81 {
+			detail, _ := os.ReadFile(sc.Marker + ".disagree")
+			return res, vt.Failf("C18/store-and-file-disagree", "%s on syscall %d/%d (%s) during %s %s (persistent: %v): %s", errno, k+1, len(pts), pt.Line, c.Step.Op, opRef, persistent, detail)
 		}
 		faulted++
 		res.Evals++
